@@ -28,7 +28,7 @@ SPEC = {
     'conf_quick': [('K1', 3), ('K5', 3)],
     'conf_thorough': [('K1', 3), ('K3', 3), ('K5', 3), ('K7', 3)],
 }
-SPEC['thorough'] = X.thorough_spec(SPEC['quick'], [('K1', 'lend'), ('K14', 'lend')])
+SPEC['thorough'] = X.thorough_spec(SPEC['quick'], cross=True, focus=[('K1', 'lend'), ('K14', 'lend')])
 BOUNDS = {t: dict(spec=SPEC[t]) for t in ("quick", "thorough")}
 EXPLANATION = ("explicit-state BFS over operation histories with state de-duplication; every transition executes the "
                "real exchange; traces_validated_against_impl = histories executed through BOTH drivers (sync and "
